@@ -170,6 +170,10 @@ impl ColumnBlockSnapshot {
             }
             _ => {
                 for idx in 0..len {
+                    if values.is_null_at(idx) {
+                        out.push(ScalarValue::Null);
+                        continue;
+                    }
                     match values.get_str_at(idx) {
                         Some(s) => out.push(ScalarValue::Utf8(s.to_string())),
                         None => out.push(ScalarValue::Null),
